@@ -152,10 +152,14 @@ def is_full_slice(e):
     return isinstance(e, ast.Slice) and e.lower is None and e.upper is None and e.step is None
 
 
-def unit_norm_sites(fi, prog=None):
-    """[(node, ok, why)] for every division whose divisor is selected with an argmax"""
+def unit_norm_sites(fi, prog=None, _depth=1):
+    """[(node, ok, why)] for every division whose divisor is selected with an argmax (also inside package helpers called from fi)"""
     prog = prog or CTX.prog
     out = []
+    if _depth > 0:
+        for c, r in prog.calls_in(fi):
+            if isinstance(r, FuncInfo) and r.cls is None and r.node is not fi.node and r.node.name.startswith("_"):
+                out.extend(unit_norm_sites(r, prog, _depth - 1))
     for n in ast.walk(fi.node):
         if not (isinstance(n, ast.BinOp) and isinstance(n.op, ast.Div)):
             continue
@@ -590,7 +594,14 @@ def inline_calls(prog, fi, e, depth=2):
 
 
 class _Fold(ast.NodeTransformer):
-    """(a, b)[0] -> a ; [a, b][1] -> b ; X[..., slice(a, b)] -> X[..., a:b]"""
+    """(a, b)[0] -> a ; [a, b][1] -> b ; X[..., slice(a, b)] -> X[..., a:b] ; slice(a, b).start -> a"""
+
+    def visit_Attribute(self, node):
+        self.generic_visit(node)
+        v = node.value
+        if node.attr in ("start", "stop") and isinstance(v, ast.Call) and isinstance(v.func, ast.Name) and v.func.id == "slice" and 2 <= len(v.args) <= 3:
+            return v.args[0] if node.attr == "start" else v.args[1]
+        return node
 
     def visit_Call(self, node):
         self.generic_visit(node)
@@ -613,6 +624,17 @@ class _Fold(ast.NodeTransformer):
         if isinstance(node.value, (ast.Tuple, ast.List)) and isinstance(node.slice, ast.Constant) and isinstance(node.slice.value, int) \
                 and -len(node.value.elts) <= node.slice.value < len(node.value.elts) and not any(isinstance(e, ast.Starred) for e in node.value.elts):
             return node.value.elts[node.slice.value]
+        # [e(j) for j in range(n)][k] -> e(k)   /  range(a, b): e(a + k)
+        v = node.value
+        if isinstance(v, ast.ListComp) and len(v.generators) == 1 and not v.generators[0].ifs and isinstance(v.generators[0].target, ast.Name) \
+                and not isinstance(node.slice, (ast.Slice, ast.Tuple)) and not (isinstance(node.slice, ast.Constant) and isinstance(node.slice.value, int) and node.slice.value < 0):
+            g = v.generators[0]
+            it = g.iter
+            if isinstance(it, ast.Call) and isinstance(it.func, ast.Name) and it.func.id == "range" and 1 <= len(it.args) <= 2 and not it.keywords:
+                k = node.slice
+                if len(it.args) == 2 and not (isinstance(it.args[0], ast.Constant) and it.args[0].value == 0):
+                    k = ast.BinOp(left=copy.deepcopy(it.args[0]), op=ast.Add(), right=k)
+                return _SubstEnv({g.target.id: k}).visit(copy.deepcopy(v.elt))
         return node
 
 
@@ -703,7 +725,14 @@ def prune(body, consts):
     """copy of `body` in which every `if` decidable under `consts` is replaced by the taken branch, recursively inside loops,
     try and with blocks (compound nodes are shallow-copied, simple statements are shared with the original tree)."""
     out = []
+    consts = dict(consts)
     for s in body:
+        if isinstance(s, ast.Assign) and len(s.targets) == 1 and isinstance(s.targets[0], ast.Name) and isinstance(s.value, (ast.Compare, ast.BoolOp, ast.UnaryOp, ast.Name)):
+            v = const_test(s.value, consts)
+            if v is not _UNDEC and isinstance(v, bool):
+                consts[s.targets[0].id] = v      # a flag derived from the seeded constants
+            else:
+                consts.pop(s.targets[0].id, None)
         if isinstance(s, ast.If):
             t = const_test(s.test, consts)
             if t is not _UNDEC:
@@ -817,4 +846,204 @@ def sliced_inverse_sites(prog, fi):
             x = expr_at(fi, sub, sub.value)
             if isinstance(x, ast.Call) and callee_name(prog, fi, x) in INV_FUNCS:
                 out.append((sub, x))
+    return out
+
+
+def bind_call(prog, fi, callee_node, call, bound=False):
+    """bind_args, with `**name` resolved through the flow-sensitive environment when it is a dict literal / dict(...) call with
+    constant keys.  Returns (mapping, errors, complete) - complete is False when some **kwargs could not be resolved."""
+    m, errs = bind_args(callee_node, call, bound=bound)
+    complete = True
+    pos, kwonly, vararg, kwarg_ = params_of(callee_node)
+    for k in call.keywords:
+        if k.arg is not None:
+            continue
+        x = expr_at(fi, call, k.value)
+        items = None
+        if isinstance(x, ast.Dict) and all(isinstance(kk, ast.Constant) for kk in x.keys):
+            items = [(kk.value, v) for kk, v in zip(x.keys, x.values)]
+        elif isinstance(x, ast.Call) and isinstance(x.func, ast.Name) and x.func.id == "dict" and not x.args and all(kw.arg for kw in x.keywords):
+            items = [(kw.arg, kw.value) for kw in x.keywords]
+        if items is None:
+            complete = False
+            continue
+        for name, v in items:
+            if name in m:
+                errs.append(f"multiple values for '{name}'")
+            elif name in pos or name in kwonly:
+                m[name] = v
+            elif not kwarg_:
+                errs.append(f"unexpected keyword '{name}'")
+    if not complete:
+        errs = [e for e in errs if not e.startswith("missing required")]
+    else:
+        # re-evaluate missing-required now that ** entries are known
+        errs = [e for e in errs if not (e.startswith("missing required argument") and e.split("'")[1] in m)]
+    return m, errs, complete
+
+
+class Elem:
+    """one way a list gets its elements: `at` = node for the program point, `elt` = element expression, `iter`/`target` of the loop or
+    comprehension that produces them (None outside a loop)"""
+
+    def __init__(self, at, elt, target, iter_, kind):
+        self.at, self.elt, self.target, self.iter, self.kind = at, elt, target, iter_, kind
+
+
+def list_elements(fi, name):
+    """every producer of elements of the local list `name`: L.append(e) / L += [e] / L.extend([e]) in loops, L = [e for v in it]"""
+    out = []
+    pm = parent_map(fi.node)
+    for n in ast.walk(fi.node):
+        if isinstance(n, ast.Call) and isinstance(n.func, ast.Attribute) and isinstance(n.func.value, ast.Name) and n.func.value.id == name and len(n.args) == 1:
+            loop = enclosing(pm, n, (ast.For,))
+            if n.func.attr == "append":
+                out.append(Elem(n, n.args[0], loop.target if loop else None, loop.iter if loop else None, "append"))
+            elif n.func.attr == "extend" and isinstance(n.args[0], (ast.List, ast.Tuple)) and len(n.args[0].elts) == 1:
+                out.append(Elem(n, n.args[0].elts[0], loop.target if loop else None, loop.iter if loop else None, "append"))
+        elif isinstance(n, ast.AugAssign) and isinstance(n.target, ast.Name) and n.target.id == name and isinstance(n.op, ast.Add) \
+                and isinstance(n.value, (ast.List, ast.Tuple)) and len(n.value.elts) == 1:
+            loop = enclosing(pm, n, (ast.For,))
+            out.append(Elem(n, n.value.elts[0], loop.target if loop else None, loop.iter if loop else None, "append"))
+        elif isinstance(n, ast.Assign) and len(n.targets) == 1:
+            t, v = n.targets[0], n.value
+            pairs = []
+            if isinstance(t, ast.Name) and t.id == name:
+                pairs.append(v)
+            elif isinstance(t, (ast.Tuple, ast.List)) and isinstance(v, (ast.Tuple, ast.List)) and len(t.elts) == len(v.elts):
+                pairs.extend(b for a, b in zip(t.elts, v.elts) if isinstance(a, ast.Name) and a.id == name)
+            for v in pairs:
+                if isinstance(v, ast.Call) and isinstance(v.func, ast.Name) and v.func.id == "list" and v.args:
+                    v = v.args[0]
+                if isinstance(v, (ast.ListComp, ast.GeneratorExp)) and len(v.generators) == 1 and not v.generators[0].ifs:
+                    out.append(Elem(v.elt, v.elt, v.generators[0].target, v.generators[0].iter, "comp"))
+    return out
+
+
+# ----------------------------------------------------------------------------- loop normalisation
+class IndexedFn:
+    """a view of a function in which `for a, b in zip(A, B)` / `for i, a in enumerate(A)` loops and comprehensions are rewritten to
+    index loops (`for _k in range(len(A))`, a -> A[_k], b -> B[_k]); usable where a FuncInfo is expected.  A loop whose element
+    variables are assigned in its body is left alone."""
+
+    def __init__(self, fi):
+        self.fi = fi
+        self.mod, self.cls, self.qual = fi.mod, fi.cls, fi.qual
+        self.is_property = self.is_static = self.is_classmethod = False
+        node = copy.deepcopy(fi.node)
+        self.count = 0
+        node.body = self._block(node.body)
+        node = _CompIdx(self).visit(node)
+        ast.fix_missing_locations(node)
+        self.node = node
+
+    def _plan(self, target, it):
+        """-> (index name, {var: replacement expr}, range iter) or None"""
+        if not (isinstance(it, ast.Call) and isinstance(it.func, ast.Name) and it.func.id in ("zip", "enumerate") and it.args and not any(isinstance(a, ast.Starred) for a in it.args)):
+            return None
+        simple = lambda a: isinstance(a, (ast.Name, ast.Attribute)) or (isinstance(a, ast.Subscript) and isinstance(a.value, ast.Name))
+        if it.func.id == "zip":
+            if not (isinstance(target, ast.Tuple) and len(target.elts) == len(it.args) and all(isinstance(t, ast.Name) for t in target.elts) and all(simple(a) for a in it.args)):
+                return None
+            self.count += 1
+            k = f"_k{self.count}"
+            sub = {t.id: ast.Subscript(value=copy.deepcopy(a), slice=ast.Name(id=k, ctx=ast.Load()), ctx=ast.Load()) for t, a in zip(target.elts, it.args)}
+            rng = ast.Call(func=ast.Name(id="range", ctx=ast.Load()), args=[ast.Call(func=ast.Name(id="len", ctx=ast.Load()), args=[copy.deepcopy(it.args[0])], keywords=[])], keywords=[])
+            return k, sub, rng, None
+        start = kwarg(it, "start", 1)
+        if not (isinstance(target, ast.Tuple) and len(target.elts) == 2 and all(isinstance(t, ast.Name) for t in target.elts) and simple(it.args[0])):
+            return None
+        a = it.args[0]
+        i, x = target.elts[0].id, target.elts[1].id
+        lo = None
+        if isinstance(a, ast.Subscript) and isinstance(a.slice, ast.Slice):
+            if a.slice.upper is not None or a.slice.step is not None:
+                return None
+            lo, a = a.slice.lower, a.value
+        if lo is not None and start is not None and dump(lo) == dump(start):
+            # enumerate(A[s:], start=s): the index is the position in A
+            rng = ast.Call(func=ast.Name(id="range", ctx=ast.Load()), args=[copy.deepcopy(lo), ast.Call(func=ast.Name(id="len", ctx=ast.Load()), args=[copy.deepcopy(a)], keywords=[])], keywords=[])
+            return i, {x: ast.Subscript(value=copy.deepcopy(a), slice=ast.Name(id=i, ctx=ast.Load()), ctx=ast.Load())}, rng, i
+        if lo is not None or start is not None:
+            return None
+        rng = ast.Call(func=ast.Name(id="range", ctx=ast.Load()), args=[ast.Call(func=ast.Name(id="len", ctx=ast.Load()), args=[copy.deepcopy(a)], keywords=[])], keywords=[])
+        return i, {x: ast.Subscript(value=copy.deepcopy(a), slice=ast.Name(id=i, ctx=ast.Load()), ctx=ast.Load())}, rng, i
+
+    def _block(self, body):
+        out = []
+        for s in body:
+            for f in ("body", "orelse", "finalbody"):
+                if hasattr(s, f) and isinstance(getattr(s, f), list) and not isinstance(s, ast.For):
+                    setattr(s, f, self._block(getattr(s, f)))
+            if isinstance(s, ast.For):
+                plan = self._plan(s.target, s.iter)
+                stored = {n.id for b in s.body for n in ast.walk(b) if isinstance(n, ast.Name) and isinstance(n.ctx, ast.Store)}
+                if plan is not None and not (set(plan[1]) & stored):
+                    k, sub, rng, keep = plan
+                    new_body = [_SubstEnv(sub).visit(b) for b in s.body]
+                    s = ast.For(target=ast.Name(id=k, ctx=ast.Store()), iter=rng, body=new_body, orelse=s.orelse, lineno=s.lineno, col_offset=s.col_offset)
+                s.body = self._block(s.body)
+            out.append(s)
+        return out
+
+
+class _CompIdx(ast.NodeTransformer):
+    def __init__(self, owner):
+        self.o = owner
+
+    def _comp(self, node):
+        self.generic_visit(node)
+        if len(node.generators) == 1 and not node.generators[0].is_async:
+            g = node.generators[0]
+            plan = self.o._plan(g.target, g.iter)
+            if plan is not None:
+                k, sub, rng, keep = plan
+                tr = _SubstEnv(sub)
+                if isinstance(node, ast.DictComp):
+                    node.key, node.value = tr.visit(node.key), tr.visit(node.value)
+                else:
+                    node.elt = tr.visit(node.elt)
+                g.ifs = [tr.visit(c) for c in g.ifs]
+                g.target, g.iter = ast.Name(id=k, ctx=ast.Store()), rng
+        return node
+    visit_ListComp = visit_GeneratorExp = visit_SetComp = visit_DictComp = _comp
+
+
+# ----------------------------------------------------------------------------- argument forwarding through helpers
+def forwarded_args(prog, fi, target_qual, depth=2, _seen=()):
+    """every way `fi` calls the function `target_qual`, directly or through package helpers it calls (up to `depth` levels):
+    -> [{"call": call node, "holder": function containing it, "chain": [names], "args": {target param: expression in terms of fi's
+    scope at the outermost call site (None if it cannot be expressed)}, "missing": [target params not passed], "complete": bool, "errors": [...]}]"""
+    from .program import FuncInfo
+    out = []
+    for c, r in prog.calls_in(fi):
+        if not isinstance(r, FuncInfo):
+            continue
+        if r.qual == target_qual or r.qual.endswith("." + target_qual):
+            m, errs, complete = bind_call(prog, fi, r.node, c)
+            pos, kwonly, _, _ = params_of(r.node)
+            args = {}
+            for p_ in pos + kwonly:
+                if p_ in m and isinstance(m[p_], ast.AST):
+                    args[p_] = expr_at(fi, c, m[p_])
+            out.append({"call": c, "holder": fi, "chain": [fi.node.name], "args": args, "missing": [p_ for p_ in pos + kwonly if p_ not in m],
+                        "complete": complete, "errors": errs, "outer_call": c})
+        elif depth > 0 and r.cls is None and r.qual not in _seen and r.mod == fi.mod:
+            inner = forwarded_args(prog, r, target_qual, depth - 1, _seen + (fi.qual,))
+            if not inner:
+                continue
+            m, errs, complete = bind_call(prog, fi, r.node, c)
+            hp = set(params_of(r.node)[0] + params_of(r.node)[1])
+            for rec in inner:
+                args = {}
+                for p_, e in rec["args"].items():
+                    # express the helper-scope expression in the caller's scope: substitute the helper's parameters
+                    names = {n.id for n in ast.walk(e) if isinstance(n, ast.Name) and n.id in hp}
+                    if all(n in m and isinstance(m[n], ast.AST) for n in names):
+                        sub = {n: expr_at(fi, c, m[n]) for n in names}
+                        args[p_] = fold(_SubstEnv(sub).visit(copy.deepcopy(e)))
+                    else:
+                        args[p_] = None
+                out.append({"call": rec["call"], "holder": rec["holder"], "chain": [fi.node.name] + rec["chain"], "args": args, "missing": rec["missing"],
+                            "complete": rec["complete"] and complete, "errors": rec["errors"] + errs, "outer_call": c})
     return out
